@@ -138,7 +138,7 @@ fn walk(ty: &Ty, w: &V, path: &mut Path, name: &str, optional: bool, out: &mut V
                 path.pop();
             }
         }
-        (Ty::Params, V::A(a)) => {
+        (Ty::Params, V::A(a)) | (Ty::ParamsOut, V::A(a)) => {
             let e = cred_param();
             for (i, x) in a.iter().enumerate() {
                 path.push(Step::Idx(i));
